@@ -48,7 +48,11 @@ async_worker_t* async_worker_create(async_worker_proc_t proc, void* context, siz
     
     worker->proc = proc;
     worker->context = context;
-    worker->state = ASYNC_WORKER_STOPPED;
+    /* The worker counts as RUNNING from the moment the thread is requested, not from
+     * the moment the new thread happens to be scheduled: a timed async_worker_join()
+     * issued before the thread had stored RUNNING used to see STOPPED and fall into
+     * an untimed pthread_join(). STOPPED is only stored again after proc returned. */
+    worker->state = ASYNC_WORKER_RUNNING;
     worker->thread_created = false;
     
     if (!platform_event_init(&worker->stop_event, true, false)) {
